@@ -115,12 +115,35 @@ func judgeC02(rep *core.Report, fi *FuncInfo, recs []*execmon.Rec) {
 			if r.PanicAt != "" {
 				continue // injected panic inside a user callback: allowed
 			}
+			// a callback (e.g. a generated function used as :conv target, fed a nil operand) that panics on
+			// this input also panics when the oracle re-invokes it: a user-supplied callback panic, allowed
+			cbPanic := false
+			for _, sk := range r.Skipped {
+				if strings.Contains(sk, ": panic:") {
+					cbPanic = true
+				}
+			}
+			if cbPanic {
+				rep.Count("unjudged_callback_panics_on_this_input", 1)
+				continue
+			}
 			// suspects: items whose source path runs through a nil pointer in this valuation
 			susp := map[string]bool{}
+			causes := map[string]bool{}
 			explicitOnly := true
 			for _, sk := range r.Skipped {
 				if !strings.Contains(sk, ": nilpath:") {
 					continue
+				}
+				switch {
+				case strings.Contains(sk, "value method String"):
+					causes["stringer-on-nil-pointer"] = true
+				case strings.Contains(sk, "value method"):
+					causes["value-getter-on-nil-pointer"] = true
+				case strings.Contains(sk, "deref of nil"):
+					causes["deref-of-nil"] = true
+				default:
+					causes["member-through-nil-pointer"] = true
 				}
 				path := sk[:strings.Index(sk, ":")]
 				mech := "?"
@@ -142,7 +165,7 @@ func judgeC02(rep *core.Report, fi *FuncInfo, recs []*execmon.Rec) {
 				sl = append(sl, k)
 			}
 			sort.Strings(sl)
-			report(&core.Violation{Property: "C02", Monitor: "exec", Symptom: panicClass(r.Panic), Features: feat(map[string]string{"nil_suspects": strings.Join(sl, ",")}), Case: c.S.ID,
+			report(&core.Violation{Property: "C02", Monitor: "exec", Symptom: panicClass(r.Panic), Features: feat(map[string]string{"nil_suspects": strings.Join(sl, ","), "nil_cause": strings.Join(sortedKeys(causes), ",")}), Case: c.S.ID,
 				Detail: fmt.Sprintf("%s(%s valuation) panicked in generated code: %s; trace=%v", r.Fn, r.Val, r.Panic, r.Trace)})
 			continue
 		}
@@ -194,7 +217,7 @@ func RunC02(e *core.Env) int {
 	if e.Tier == "thorough" {
 		n, k = 4000, 20
 	}
-	runExecBatches(e, rep, "broad", n, 150, execmon.Job{NRandom: k}, func(b *Batch, eo *ExecOut) {
+	runExecBatchesC(e, rep, "broad", n, 150, execmon.Job{NRandom: k}, corpusC02(), func(b *Batch, eo *ExecOut) {
 		for id, infos := range eo.Infos {
 			for key, fi := range infos {
 				judgeC02(rep, fi, eo.Recs[id+"/"+key])
@@ -211,12 +234,39 @@ func RunC02(e *core.Env) int {
 
 // runExecBatches generates scenarios, runs the tool, then the exec engine per batch.
 func runExecBatches(e *core.Env, rep *core.Report, profile string, n, batchSize int, job execmon.Job, judge func(b *Batch, eo *ExecOut)) {
+	runExecBatchesC(e, rep, profile, n, batchSize, job, nil, judge)
+}
+
+func sortedKeys(m map[string]bool) []string {
+	var r []string
+	for k := range m {
+		r = append(r, k)
+	}
+	sort.Strings(r)
+	return r
+}
+
+// corpusC02 holds the witness of KF-C02-stringer-on-nil-pointer.
+func corpusC02() []*scen.Scenario {
+	b := scen.NewBuilder(nil, scen.Profile{}, "kw-c02-nilstringer", "kwc02a")
+	b.Struct("", "A", "S *LStr", "K int")
+	b.Struct("", "B", "S string", "K int")
+	m := &scen.Method{Name: "StringerOnPointerField", Src: scen.Param{Type: "*A"}, Dst: scen.Param{Type: "*B"}, Notations: []scen.Notation{scen.N("stringer")},
+		Probes: []scen.Probe{{Dst: "S", Mech: "diff", DstT: "string", SrcT: "*LStr"}, {Dst: "K", Mech: "same", DstT: "int", SrcT: "int"}}}
+	return []*scen.Scenario{b.Manual(m)}
+}
+
+// runExecBatchesC is runExecBatches with corpus scenarios added to the first batch.
+func runExecBatchesC(e *core.Env, rep *core.Report, profile string, n, batchSize int, job execmon.Job, corpus []*scen.Scenario, judge func(b *Batch, eo *ExecOut)) {
 	for start, bi := 0, 0; start < n; start, bi = start+batchSize, bi+1 {
 		end := start + batchSize
 		if end > n {
 			end = n
 		}
 		var ss []*scen.Scenario
+		if bi == 0 {
+			ss = append(ss, corpus...)
+		}
 		for i := start; i < end; i++ {
 			ss = append(ss, GenByProfile(profile, e.Seed, i, fmt.Sprintf("s%05d", i)))
 		}
